@@ -3,6 +3,7 @@ package main
 import (
 	"context"
 	"fmt"
+	"math"
 	"os"
 	"os/exec"
 	"path/filepath"
@@ -792,6 +793,8 @@ func init() {
 				m.violate(violation{"C18", "float-edges", fmt.Sprintf("Float64Range(%v,%v): min seen=%v max seen=%v in 5000 draws", lo, hi, sawLo, sawHi), map[string]string{}})
 			}
 		}
+		// the public full-range generator of every integer kind hits both ends of its Go type
+		kindEdges(r, m)
 		// fresh seeds: two Check calls without -rapid.seed explore different test cases
 		fl := baseFlags()
 		fl.Seed = 0
@@ -812,6 +815,38 @@ func init() {
 			}
 		}
 	}
+}
+
+func edgesOf[V comparable](r *rng, m *monOut, name string, g *rapid.Generator[V], lo, hi V) {
+	s := rapid.VerifRandStream(r.u64(), false)
+	t := rapid.VerifNewT(newRecTB("k"), s, false)
+	sawLo, sawHi := false, false
+	const n = 20000
+	for k := 0; k < n && !(sawLo && sawHi); k++ {
+		v := rapid.VerifValue(g, t)
+		sawLo = sawLo || v == lo
+		sawHi = sawHi || v == hi
+	}
+	m.tag("kind-edges")
+	m.eval("kind-edges "+name, true)
+	if !(sawLo && sawHi) {
+		m.violate(violation{"C18", "kind-edges", fmt.Sprintf("%s: minimum %v seen=%v, maximum %v seen=%v in %d draws", name, lo, sawLo, hi, sawHi, n), map[string]string{"gen": name}})
+	}
+}
+
+func kindEdges(r *rng, m *monOut) {
+	edgesOf(r, m, "Int8()", rapid.Int8(), int8(math.MinInt8), int8(math.MaxInt8))
+	edgesOf(r, m, "Int16()", rapid.Int16(), int16(math.MinInt16), int16(math.MaxInt16))
+	edgesOf(r, m, "Int32()", rapid.Int32(), int32(math.MinInt32), int32(math.MaxInt32))
+	edgesOf(r, m, "Int64()", rapid.Int64(), int64(math.MinInt64), int64(math.MaxInt64))
+	edgesOf(r, m, "Int()", rapid.Int(), math.MinInt, math.MaxInt)
+	edgesOf(r, m, "Uint8()", rapid.Uint8(), uint8(0), uint8(math.MaxUint8))
+	edgesOf(r, m, "Uint16()", rapid.Uint16(), uint16(0), uint16(math.MaxUint16))
+	edgesOf(r, m, "Uint32()", rapid.Uint32(), uint32(0), uint32(math.MaxUint32))
+	edgesOf(r, m, "Uint64()", rapid.Uint64(), uint64(0), uint64(math.MaxUint64))
+	edgesOf(r, m, "Uint()", rapid.Uint(), uint(0), uint(math.MaxUint))
+	edgesOf(r, m, "Uintptr()", rapid.Uintptr(), uintptr(0), ^uintptr(0))
+	edgesOf(r, m, "Byte()", rapid.Byte(), byte(0), byte(255))
 }
 
 func bitsLen(u uint64) int {
